@@ -13,8 +13,9 @@ RULE = ("(1) histories: case = {ci, ops}; every operation sequence of length <= 
         "UNKNOWN} x mnemonic_transforms {off,on} is enumerated against the reference model (only applicable "
         "operations are produced); thorough adds every single operation from every model state reachable in <= 5 "
         "operations (sequences of length <= 6 up to equality of the section state reached by the prefix). Each "
-        "history runs on the ~Curves section of a LASFile (through LASFile methods where one exists) and, when it has "
-        "no replace_curve_item, on a bare SectionItems of HeaderItems (enumerated histories: those of length <= 3). "
+        "history runs on the ~Curves section of a LASFile (through LASFile methods where one exists) and "
+        "on a bare SectionItems of HeaderItems with replace_curve_item(i, x) read as `section[i] = x` (enumerated "
+        "histories: those of length <= 3). "
         "After each step: section content (identity) as the list model, originals as the model, session names "
         "pairwise distinct, each resolving through section[k], getattr(section,k), LASFile[k] to its own item, session "
         "names as the documented numbering rule; the enumeration is prefix-closed, so an enumerated case is judged "
